@@ -197,7 +197,7 @@ def gen_ops(st: Stream, m: M.Model, profile: str, nops: int) -> Tuple[List[List[
         regions, flags = M.describe(m, addr, n)
         if not allow_edge and not allow_wild and ("split" in flags or "|" in regions):
             continue
-        if not allow_alias and not allow_wild and any(f in flags for f in ("a24", "hi", "mir")):
+        if not allow_alias and not allow_wild and any(f in flags for f in ("a24", "hi-mapped", "hi-plain", "mir")):
             continue
         if "dev" in [m.info(c)[1] for c in m.cells(addr, n)] and not st.chance(1, 3):
             continue
